@@ -6,7 +6,7 @@
 //!    and fresh processes (`cvh c05worker`) must all yield byte-identical output for all three
 //!    formatters.
 use crate::gen::Corpus;
-use crate::htmlk::{gen_case, push_html_k, Src};
+use crate::htmlk::{gen_case, Src};
 use crate::model::{Batch, Model};
 use crate::opts::Opts;
 use crate::report::Report;
@@ -46,38 +46,29 @@ fn sig_for(which: usize, a: &[u8], b: &[u8]) -> String {
     }
 }
 
-pub fn push_case<'a>(bt: &mut Batch<'a>, rep: &mut Report, o: Opts, src: Src, name: &'static str, reps: usize, threads: usize) {
-    let input = src.input(&o);
-    push_html_k(bt, rep, &o, &src, name);
-    let first = match render_all(&src, &o) {
+/// Runs inside a worker: repeated calls, racing threads; returns
+/// `ok\t<hex html>\t<norm wire>\t<tree wire>` or `differs\t<kind>\t<sig>\t<detail>` or `skipped-panic`.
+fn case_in_worker(o: &Opts, src: &Src, reps: usize, threads: usize) -> String {
+    let first = match render_all(src, o) {
         Ok(r) => r,
-        Err(e) => {
-            // totality is C01's subject: counted, not judged here
-            let _ = (&input, &e);
-            rep.count("skipped-panic");
-            return;
-        }
+        Err(_) => return "skipped-panic".into(), // totality is C01's subject
     };
-    // repeated calls in this thread
     for _ in 0..reps {
-        rep.s_evals += 1;
-        if let Ok(r) = render_all(&src, &o) {
+        if let Ok(r) = render_all(src, o) {
             for w in 0..3 {
                 if r[w] != first[w] {
-                    rep.fail("repeat-call-differs", &sig_for(w, &first[w], &r[w]), input.clone(), diff_window(&first[w], &r[w]));
-                    return;
+                    return format!("differs\trepeat-call-differs\t{}\t{}", sig_for(w, &first[w], &r[w]), diff_window(&first[w], &r[w]));
                 }
             }
         }
     }
-    // calls racing on threads sharing the same Options value
     if threads > 0 {
         let c = o.to_comrak();
         let barrier = std::sync::Barrier::new(threads);
         let results: Vec<Result<[Vec<u8>; 3], String>> = std::thread::scope(|sc| {
             let hs: Vec<_> = (0..threads)
                 .map(|_| {
-                    let (c, src, o, barrier) = (&c, &src, &o, &barrier);
+                    let (c, src, o, barrier) = (&c, src, o, &barrier);
                     sc.spawn(move || {
                         barrier.wait();
                         src.with_root(o, |root| {
@@ -94,17 +85,17 @@ pub fn push_case<'a>(bt: &mut Batch<'a>, rep: &mut Report, o: Opts, src: Src, na
                 .collect();
             hs.into_iter().map(|h| h.join().unwrap_or_else(|_| Err("thread panicked".into()))).collect()
         });
-        for r in results {
-            rep.s_evals += 1;
-            if let Ok(r) = r {
-                for w in 0..3 {
-                    if r[w] != first[w] {
-                        rep.fail("thread-call-differs", &sig_for(w, &first[w], &r[w]), input.clone(), diff_window(&first[w], &r[w]));
-                        return;
-                    }
+        for r in results.into_iter().flatten() {
+            for w in 0..3 {
+                if r[w] != first[w] {
+                    return format!("differs\tthread-call-differs\t{}\t{}", sig_for(w, &first[w], &r[w]), diff_window(&first[w], &r[w]));
                 }
             }
         }
+    }
+    match src.render(o) {
+        Ok(r) => format!("ok\t{}\t{}\t{}\t{}", hex(&r.html), r.norm_wire, r.tree_wire, r.kinds.join(",")),
+        Err(_) => "skipped-panic".into(),
     }
 }
 
@@ -113,6 +104,15 @@ pub fn push_case<'a>(bt: &mut Batch<'a>, rep: &mut Report, o: Opts, src: Src, na
 ///  * `seq <input A> || <input B>`     -> renders B on a fresh thread, then A followed by B on another
 ///                                        fresh thread; answers `same` or `differs <formatter>`
 pub fn worker_case(line: &str) -> String {
+    if let Some(rest) = line.strip_prefix("case ") {
+        let mut it = rest.splitn(3, ' ');
+        let reps: usize = it.next().and_then(|x| x.parse().ok()).unwrap_or(1);
+        let threads: usize = it.next().and_then(|x| x.parse().ok()).unwrap_or(0);
+        return match it.next().and_then(Src::parse_input) {
+            Some((o, src)) => case_in_worker(&o, &src, reps, threads),
+            None => "ERR bad-input".into(),
+        };
+    }
     if let Some(rest) = line.strip_prefix("seq ") {
         let (a, b) = match rest.split_once(" || ") {
             Some(x) => x,
@@ -260,8 +260,11 @@ pub fn run(cfg: &Cfg, rep: &mut Report) {
     source_audit(rep);
     let n = if cfg.tier_thorough { 40_000 } else if cfg.full { 10_000 } else { 2_500 };
     let reps = if cfg.tier_thorough { 12 } else { 6 };
-    let mut inputs: Vec<(String, [Vec<u8>; 3])> = vec![];
-    let mut bt = Batch::new();
+    let budget = std::time::Duration::from_secs(20);
+    // All real rendering happens in isolated workers (a dependence on earlier documents can make
+    // the renderer hang or allocate without bound; the coordinating process must survive that).
+    let mut cases: Vec<(Opts, Src, String)> = vec![];
+    let mut lines_w: Vec<String> = vec![];
     for i in 0..n {
         let (src, name) = gen_case(&mut rng, &corpus);
         let mut o = Opts::random(&mut rng);
@@ -275,13 +278,47 @@ pub fn run(cfg: &Cfg, rep: &mut Report) {
         if i < 3 {
             rep.sample(format!("{} opts [{}]", src.show(), o.describe()));
         }
+        rep.count(&format!("gen-{}", name));
         let threads = if i % 8 == 0 { 8 } else { 0 };
-        if i % 10 == 0 {
-            if let Ok(r) = render_all(&src, &o) {
-                inputs.push((src.input(&o), r));
+        let input = src.input(&o);
+        lines_w.push(format!("case {} {} {}", reps, threads, input));
+        cases.push((o, src, input));
+    }
+    let outs = crate::worker::run_cases("C05", &lines_w, budget, crate::worker::default_workers());
+    let mut inputs: Vec<(String, [Vec<u8>; 3])> = vec![];
+    let mut bt = Batch::new();
+    for (idx, ((o, _src, input), got)) in cases.iter().zip(outs.iter()).enumerate() {
+        match got {
+            crate::worker::Outcome::Reply(l, _) => {
+                let f: Vec<&str> = l.split('\t').collect();
+                match f.as_slice() {
+                    ["ok", hhtml, norm, tree, kinds] => {
+                        rep.s_evals += (reps + 1) as u64;
+                        let ks: Vec<String> = kinds.split(',').map(|x| x.to_string()).collect();
+                        if ks.len() > 1 {
+                            rep.nontrivial(&(ks.clone(), o.bits.clone()));
+                        }
+                        let want = hhtml.to_string();
+                        let inp = input.clone();
+                        bt.push(format!("html {} {} {}", o.wire(), norm, tree), move |resp, rep| {
+                            rep.k_evals += 1;
+                            if resp != want {
+                                let (a, b) = (crate::util::unhex(&want).unwrap_or_default(), crate::util::unhex(resp).unwrap_or_default());
+                                rep.disagree("html-bytes", inp, diff_window(&a, &b));
+                            }
+                        });
+                        if idx % 10 == 0 {
+                            inputs.push((input.clone(), [crate::util::unhex(hhtml).unwrap_or_default(), vec![], vec![]]));
+                        }
+                    }
+                    ["differs", kind, sig, detail] => rep.fail(kind, sig, input.clone(), detail.to_string()),
+                    ["skipped-panic"] => rep.count("skipped-panic"),
+                    _ => rep.notes.push(format!("unexpected worker reply: {}", &l[..l.len().min(80)])),
+                }
             }
+            crate::worker::Outcome::Hang(ms) => rep.fail("render-hangs", "any", input.clone(), format!("no answer within {} ms (this worker had rendered other documents under other options before: see the sequence oracle)", ms)),
+            crate::worker::Outcome::Died { how, .. } => rep.fail("render-dies", "any", input.clone(), how.clone()),
         }
-        push_case(&mut bt, rep, o, src, name, reps, threads);
         if bt.len() > 4000 {
             let b = std::mem::replace(&mut bt, Batch::new());
             b.run(&m, rep);
@@ -295,9 +332,9 @@ pub fn run(cfg: &Cfg, rep: &mut Report) {
     let outs = crate::worker::run_cases("C05", &lines, budget, crate::worker::default_workers());
     for ((inp, want), got) in inputs.iter().zip(outs.iter()) {
         rep.s_evals += 1;
-        let w = format!("R {} {} {}", hex(&want[0]), hex(&want[1]), hex(&want[2]));
+        let w = format!("R {} ", hex(&want[0]));
         match got {
-            crate::worker::Outcome::Reply(l, _) if *l == w || l == "skipped-panic" => {}
+            crate::worker::Outcome::Reply(l, _) if l.starts_with(&w) || l == "skipped-panic" => {}
             crate::worker::Outcome::Reply(_, _) => rep.fail("process-run-differs", "any", inp.clone(), "a fresh process produced different bytes for the same input and options".into()),
             crate::worker::Outcome::Hang(ms) => rep.fail("process-run-hangs", "any", inp.clone(), format!("no answer within {} ms in a fresh process", ms)),
             crate::worker::Outcome::Died { how, .. } => rep.fail("process-run-died", "any", inp.clone(), how.clone()),
@@ -357,16 +394,13 @@ pub fn replay(kind: &str, input: &str) -> Result<Option<String>, String> {
             crate::worker::Outcome::Died { how, .. } => Some(format!("{}: worker died: {}", kind, how)),
         });
     }
-    let (o, src) = Src::parse_input(input).ok_or("bad replay input")?;
-    let m = Model::from_env();
-    let mut rep = Report::new("C05");
-    let mut bt = Batch::new();
-    push_case(&mut bt, &mut rep, o, src, "replay", 40, 8);
-    bt.run(&m, &mut rep);
-    for c in rep.s_fail.iter().chain(rep.k_disagree.iter()) {
-        if kind.is_empty() || c.kind == kind {
-            return Ok(Some(format!("{}: {}", c.kind, c.detail)));
-        }
+    let _ = Src::parse_input(input).ok_or("bad replay input")?;
+    let outs = crate::worker::run_cases("C05", &[format!("case 40 8 {}", input)], std::time::Duration::from_secs(30), 1);
+    match &outs[0] {
+        crate::worker::Outcome::Reply(l, _) if l.starts_with("differs\t") => return Ok(Some(l.replace('\t', " "))),
+        crate::worker::Outcome::Reply(_, _) => {}
+        crate::worker::Outcome::Hang(ms) => return Ok(Some(format!("{}: hang after {} ms", kind, ms))),
+        crate::worker::Outcome::Died { how, .. } => return Ok(Some(format!("{}: worker died: {}", kind, how))),
     }
     Ok(None)
 }
